@@ -424,7 +424,7 @@ func badResponse(method string, u *UserCfg, ch *wamp.Challenge) string {
 // challenge with a key anybody can compute.
 var altVariants = map[string][]string{
 	"ticket":     {"lit:empty", "lit:authid", "lit:prefix", "lit:upper", "lit:twice"},
-	"wampcra":    {"msg:authid", "msg:empty", "msg:authrole", "msg:provider", "msg:method", "msg:session", "msg:nonce", "msg:nosession", "msg:notimestamp", "key:empty", "key:authid", "key:question", "raw:unencoded"},
+	"wampcra":    {"msg:authid", "msg:empty", "msg:authrole", "msg:provider", "msg:method", "msg:session", "msg:nonce", "msg:nosession", "msg:notimestamp", "key:empty", "key:authid", "key:question", "key:nonce", "key:timestamp", "key:challenge", "key:session", "key:provider", "raw:unencoded"},
 	"cryptosign": {"msg:zero", "msg:reversed", "msg:hexascii", "msg:flipped", "sig:swapped", "sig:upperhex", "key:zero"},
 }
 
@@ -496,6 +496,17 @@ func altResponse(method, alt string, u *UserCfg, ch *wamp.Challenge, claimed str
 			return hmacB64([]byte(claimed), chal)
 		case "key:question":
 			return hmacB64([]byte("?"), chal)
+		// keys anybody can compute from the CHALLENGE it was just sent
+		case "key:nonce":
+			return hmacB64([]byte(part(1)), chal)
+		case "key:timestamp":
+			return hmacB64([]byte(part(4)), chal)
+		case "key:challenge":
+			return hmacB64([]byte(chal), chal)
+		case "key:session":
+			return hmacB64([]byte(part(6)), chal)
+		case "key:provider":
+			return hmacB64([]byte(part(2)), chal)
 		default: // the raw HMAC bytes, not base64
 			s, _ := base64.StdEncoding.DecodeString(craRespond(secret, ch.Extra))
 			return string(s)
